@@ -26,6 +26,9 @@ type resDef struct {
 	kind   byte   // 'm' model, 'c' collection
 	query  bool   // query resource
 	getErr string // non-empty: get answers with this error code
+	// defQuery: a query resource that also answers a request without query, as this (normalised)
+	// query — the resource id without query is then one more alias of it
+	defQuery string
 }
 
 type universe struct {
@@ -182,6 +185,9 @@ func (t *truth) getResponse(subject string, payload []byte) (label string, data 
 	}
 	if d.getErr != "" {
 		return "err:" + d.getErr, []byte(errJSON(d.getErr)), nil
+	}
+	if d.query && p.Query == "" && d.defQuery != "" {
+		p.Query = d.defQuery
 	}
 	if d.query != (p.Query != "") {
 		// plain resource asked with a query or query resource without
